@@ -19,6 +19,7 @@
       (`same_box_for_both_starts`).
 -/
 import InovesaModel.Gen.Physics
+import InovesaModel.Gen.StepParams
 import InovesaModel.Lemmas.Field
 import InovesaModel.Lemmas.PS
 import Mathlib.Tactic.LinearCombination
@@ -132,6 +133,13 @@ theorem bunch_length_relation (E : PhysEnv α) (h : Chain E) (hm : Machine E)
 theorem slip_is_angle (E : PhysEnv α) (h : Chain E) : E.v_slip 0 = E.v_angle := by
   have := h.h_slip 0 (by norm_num)
   simpa [p_slip] using this.symm
+
+/-- together with the generated `angle = 2π/steps` (Gen/StepParams): the first-order drift per step, summed over one
+    synchrotron period, is `2π` — the drift turns the bunch at the same rate as the RF kick (C03) -/
+theorem slip_times_steps (E : PhysEnv α) (h : Chain E) (steps : α) (hs : steps ≠ 0)
+    (ha : E.v_angle = Gen.pAngle E.twoPi steps) : E.v_slip 0 * steps = E.twoPi := by
+  rw [slip_is_angle E h, ha, Gen.pAngle]
+  field_simp
 
 theorem slip_higher_orders (E : PhysEnv α) (h : Chain E) (ha : E.v_alpha 0 ≠ 0) :
     E.v_slip 1 * E.v_alpha 0 = E.v_alpha 1 * E.v_angle ∧ E.v_slip 2 * E.v_alpha 0 = E.v_alpha 2 * E.v_angle := by
